@@ -145,11 +145,14 @@ impl Check for C11 {
             time_source: *ch.pick(S_CFG, &[0xa0u8, 0x20, 0x10]),
         };
         spec.ports.clear();
+        let mut port_logs: Vec<i8> = Vec::new();
         for p in 0..nports {
             let seg = w.add_segment(ch.range(S_CFG, 1, 300) as u128 * US, ch.range(S_CFG, 0, 10) as u128 * US);
             w.attach_script(seg, 10 + p);
             let mut ps = PortSpec::default();
-            ps.announce_log = log;
+            // ports of one instance need not share an announce interval
+            ps.announce_log = log + *ch.pick(S_CFG, &[0i8, 0, 1, 2]);
+            port_logs.push(ps.announce_log);
             ps.sync_log = log;
             ps.delay_log = log;
             ps.receipt_timeout = ch.range(S_CFG, 2, 4) as u8;
@@ -164,6 +167,10 @@ impl Check for C11 {
         let mut rival = RefMaster::new(11, 1, Pid::new(RIVAL_ID, 1), random_gm(ch, RIVAL_ID, 50), log);
         rival.gm.identity = RIVAL_ID;
         rival.active = ch.boolean(S_CFG);
+        // neighbours need not announce at the rate this instance is configured for (the receiver
+        // cannot know their rate; a faster parent fills the per-master announce window)
+        parent.announce_log = log - *ch.pick(S_CFG, &[0i8, 0, 1, 2, 3, -1]);
+        rival.announce_log = log - *ch.pick(S_CFG, &[0i8, 0, 2, -1]);
         parent.start(&mut w, ch.range(S_CFG, 1, 999) as u128 * i_units / 1000);
         rival.start(&mut w, ch.range(S_CFG, 1, 999) as u128 * i_units / 1000);
         let n_intervals = ch.range(S_WORK, 30, 80) as u128;
@@ -319,7 +326,7 @@ impl Check for C11 {
                         format!("port {} emitted {:?} while the data sets hold {:?}", e.port, got, ds_cmp),
                     ));
                 }
-                if f.hdr.log_interval != log {
+                if f.hdr.log_interval != port_logs[e.port] {
                     // outside the statement (Table 42 wants logAnnounceInterval here): probe only
                     log_interval_diff += 1;
                 }
